@@ -495,8 +495,17 @@ func (db *DB) SetReadOnly() error {
 	select {
 	case db.compErrSetC <- ErrReadOnly:
 	case perr := <-db.compPerErrC:
+		// Nobody took over the write lock: give it back.
+		db.compWriteLocking = false
+		verifTrace(db.s, "x:unlock", 3)
+		<-db.writeLockC
 		return perr
 	case <-db.closeC:
+		// Close is waiting for the write lock, and the compaction error
+		// goroutine, which would release it, may be gone already.
+		db.compWriteLocking = false
+		verifTrace(db.s, "x:unlock", 3)
+		<-db.writeLockC
 		return ErrClosed
 	}
 
